@@ -15,13 +15,16 @@ import time
 VERIF = os.path.dirname(os.path.dirname(os.path.abspath(__file__)))
 REPO = os.environ.get("VERIF_REPO", "/repo")
 SPEC = os.path.join(VERIF, "spec")
-BUILD = os.path.join(VERIF, ".build")
+import hashlib  # noqa: E402
+_TAG = "" if REPO == "/repo" else "_" + hashlib.sha1(REPO.encode()).hexdigest()[:10]
+BUILD = os.path.join(VERIF, ".build" + _TAG)      # a different repository under test (VERIF_REPO, used by the seeded-change matrix) gets its own build directory
 SCRATCH_ROOT = os.path.join(VERIF, ".scratch")
-EVIDENCE = os.path.join(VERIF, "evidence")
+EVIDENCE = os.environ.get("VERIF_EVIDENCE_DIR", os.path.join(VERIF, "evidence"))
 REPLAYS = os.path.join(VERIF, ".scratch", "replays")
 KNOWN = os.path.join(VERIF, "known_findings.json")
 
 GOENV = dict(os.environ)
+GOENV["VERIF_REPO"] = REPO
 GOENV.update({"GOFLAGS": "-mod=mod", "GOPROXY": "off", "GOSUMDB": "off", "GOTOOLCHAIN": "local",
               "CGO_ENABLED": "1"})
 
@@ -57,6 +60,13 @@ def build_harness(race=False):
     os.makedirs(BUILD, exist_ok=True)
     out = os.path.join(BUILD, "drv_race" if race else "drv")
     hdir = os.path.join(VERIF, "harness")
+    if REPO != "/repo":
+        # same harness sources, module replaced by the repository under test
+        hdir = os.path.join(BUILD, "harness")
+        shutil.rmtree(hdir, ignore_errors=True)
+        shutil.copytree(os.path.join(VERIF, "harness"), hdir)
+        gm = open(os.path.join(hdir, "go.mod")).read().replace("=> /repo", "=> " + REPO)
+        open(os.path.join(hdir, "go.mod"), "w").write(gm)
     # go.sum of the harness is the repository's (no network to verify anything else)
     cmd = ["go", "build", "-tags", "verif", "-o", out]
     if race:
